@@ -239,7 +239,10 @@ pub struct Recorder {
 
 impl Recorder {
     pub fn new() -> Self {
-        Recorder { max_samples: 6, known: Some(Arc::new(KnownFindings::load())), ..Default::default() }
+        // the findings file is read once per process (it is never written at run time)
+        static SHARED: std::sync::OnceLock<Arc<KnownFindings>> = std::sync::OnceLock::new();
+        let known = SHARED.get_or_init(|| Arc::new(KnownFindings::load())).clone();
+        Recorder { max_samples: 6, known: Some(known), ..Default::default() }
     }
     pub fn eval(&mut self) {
         if !self.frozen {
